@@ -359,6 +359,57 @@ func TestStock(t *testing.T) {
 }
 `
 
+// min / max over a slice of a NAMED ordered type with an untyped constant default (the default's type is only
+// the element type once the call resolves: first run vs. rerun), and chains of five and six nested derive calls
+// from a clean tree (every level needs its own pass)
+const minmax = `package minmax
+
+import "time"
+
+type Dur int
+
+type Level uint8
+
+type Name string
+
+type Ratio float64
+
+func MinDur(ds []Dur) Dur            { return deriveMin(ds, 0) }
+func MaxDur(ds []Dur) Dur            { return deriveMax(ds, 0) }
+func MinLevel(ls []Level) Level      { return deriveMinLevel(ls, 3) }
+func MaxName(ns []Name) Name         { return deriveMaxName(ns, "") }
+func MinRatio(rs []Ratio) Ratio      { return deriveMinRatio(rs, 1.5) }
+func MaxTime(ts []time.Duration) time.Duration { return deriveMaxTime(ts, 0) }
+func MinPlain(xs []int) int          { return deriveMinPlain(xs, 0) }
+func MaxTyped(ls []Level, l Level) Level { return deriveMaxTyped(ls, l) }
+`
+
+const chain = `package chain
+
+func length(s string) int { return len(s) }
+
+func double(i int) int { return 2 * i }
+
+func show(i int) string { return string(rune('a' + i)) }
+
+// five levels
+func Five(m map[string]int) []int {
+	return deriveSortInts(deriveUniqueInts(deriveFmapLen(length, deriveSortStrs(deriveKeys(m)))))
+}
+
+// six levels
+func Six(m map[string]bool) []string {
+	return deriveSortStrs(deriveFmapShow(show, deriveUniqueInts(deriveFmapDouble(double, deriveFmapLen(length, deriveKeysB(m))))))
+}
+
+// seven levels, ending in a comparison
+func Seven(a, b map[int]string) bool {
+	return deriveEqual(
+		deriveSortStrs(deriveUniqueStrs(deriveFmapShow(show, deriveFmapDouble(double, deriveSortInts(deriveKeysC(a)))))),
+		deriveSortStrs(deriveUniqueStrs(deriveFmapShow(show, deriveFmapDouble(double, deriveSortInts(deriveKeysC(b)))))))
+}
+`
+
 const bad = `package bad
 
 func Eq(a, b chan int) bool { return deriveEqual(a, b) }
@@ -549,6 +600,8 @@ func main() {
 	write("testonly/testonly_test.go", testonlyTest)
 	add("testonly2", "calls-only-in-test-file-and-second-pass", "ok", strings.Replace(testonly, "package testonly", "package testonly2", 1))
 	write("testonly2/testonly2_test.go", testonly2Test)
+	add("minmax", "named-ordered-element-untyped-default", "ok", minmax)
+	add("chain", "nested-derive-calls-five-to-seven-deep", "ok", chain)
 	add("bad", "rejected", "fail", bad)
 	n := 6
 	if *thorough {
